@@ -344,6 +344,16 @@ class kFlowDecomp(pathmodel.AbstractPathModelDAG):
             utils.logger.error(f"Length of given weights ({len(self.solution_weights_superset)}) is different from k ({self.k})")
             raise ValueError(f"Length of given weights ({len(self.solution_weights_superset)}) is different from k ({self.k})")
 
+        if self.weight_type == int:
+            # A given weight that is not an integer cannot be the weight of a path when integer weights are requested
+            # (get_solution would otherwise return it rounded, and the paths would no longer explain the flow).
+            for i in range(self.k):
+                if self.solution_weights_superset[i] != round(self.solution_weights_superset[i]):
+                    self.solver.add_constraint(
+                        self.solver.quicksum(self.edge_vars[(self.G.source, v, i)] for v in self.G.successors(self.G.source)) == 0,
+                        name=f"non_integer_given_weight_i={i}",
+                    )
+
         # We encode that for each edge (u,v), the sum of the weights of the paths going through the edge is equal to the flow value of the edge.
         for u, v, data in self.G.edges(data=True):
             if (u, v) in self.edges_to_ignore:
